@@ -263,6 +263,27 @@ def run_join_case(ctx, idx, rng, tmp):
     try:
         cli.join(paths_in=paths, path_out=tmp / "joined.rtdc")
         ctx.ev("task_no_exception")
+        if rng.random() < 0.4:
+            # the joined file is joined again with a later measurement (its own logs already
+            # carry the source prefixes of the first join); the contract on the task compares
+            # the second output with *its* inputs
+            later = {"n": sizes[0],
+                     "features": {f: gd.slice_feature(v, slice(0, sizes[0]))
+                                  for f, v in model["features"].items()},
+                     "meta": {s: dict(kv) for s, kv in model["meta"].items()},
+                     "logs": {"later log": ["one line"]}, "tables": {}}
+            later["meta"]["experiment"]["date"] = "2031-12-30"
+            later["meta"]["experiment"]["time"] = "23:59:58"
+            later["meta"]["experiment"]["run index"] = 1
+            later["meta"]["experiment"]["event count"] = sizes[0]
+            pl = tmp / "later.rtdc"
+            gd.write_model(pl, later)
+            order2 = [tmp / "joined.rtdc", pl] if rng.random() < 0.5 else \
+                [pl, tmp / "joined.rtdc"]
+            cli.join(paths_in=order2, path_out=tmp / "joined_again.rtdc")
+            ctx.ev("task_no_exception")
+            ctx.count("joins_of_a_joined_file")
+            case["joined_again"] = True
     except Exception as exc:
         import traceback
         ctx.ev("task_no_exception")
